@@ -28,7 +28,15 @@ func c08Scenarios() []c08Scenario {
 	dput := func(r int, k, v string) pt.Action { return pt.Action{Op: "dput", R: r, K: k, V: v, T: "k1|"} }
 	put := func(r int, k, v string) pt.Action { return pt.Action{Op: "put", R: r, K: k, V: v, T: "k1|"} }
 	open := func(r int, mode string) pt.Action { return pt.Action{Op: "open", R: r, T: "k1", K: mode} }
+	// one request pulls more operations than the database hands out in its first batch (101): the rest of the range
+	// comes with further commands (getMore), each of which can fail or be the last before the server dies
+	bigPull := []pt.Action{}
+	for i := 0; i < 105; i++ {
+		bigPull = append(bigPull, inc(0))
+	}
+	bigPull = append(bigPull, syn(0), syn(1), inc(1), syn(1), syn(0))
 	return []c08Scenario{
+		{"counter-pull-of-105", E2Params{Clients: 2, Type: "counter", Tolerant: true, Prefix: "joined"}, bigPull},
 		{"counter-soc", E2Params{Clients: 2, Type: "counter", Tolerant: true},
 			[]pt.Action{open(0, "soc"), inc(0), syn(0), open(1, "soc"), syn(1), inc(1), inc(0), syn(1), syn(0)}},
 		{"list-create-subscribe", E2Params{Clients: 2, Type: "list", Tolerant: true},
